@@ -2,6 +2,7 @@
 from __future__ import annotations
 
 import ast
+import re
 
 from sa.pm import Program, FuncInfo, dotted, norm, calls_in, walk_no_nested, AnalysisError, kwarg
 from sa.worlds import WorldFlow, passed
@@ -128,9 +129,14 @@ def width_demands(prog: Program, rep, RID: str):
         rep.violation(RID, key, "no per-condensation-edge demand is set in the width computation", g.loc())
     else:
         lp, st = hit
-        tv = norm(lp.target).strip("()")
-        want = {f"edge_multiplicity[{tv}]", f"edge_multiplicity[({tv})]"}
-        if norm(st.value) in want and "_condensation_edge_to_condensation_expanded_edge" in norm(st.targets[0].slice):
+        from rules.common import all_local_defs, bind_loop_target, canon_in_loop
+        ldefs = all_local_defs(g.node)
+        binding = bind_loop_target(lp.target)
+        tv = "E0, E1"
+        val = canon_in_loop(st.value, ldefs, binding, lp)
+        slc = canon_in_loop(st.targets[0].slice, ldefs, binding, lp)
+        if val in ("edge_multiplicity[E0, E1]", "edge_multiplicity[(E0, E1)]") and \
+                re.fullmatch(r"self\._condensation_edge_to_condensation_expanded_edge\(E0, E1\)", slc):
             rep.ok(RID, key, "demand of a condensation edge = number of original edges between the two SCCs (after removing ignored ones), un-capped", g.loc(st),
                    sample={"stmt": norm(st)})
         else:
